@@ -18,7 +18,9 @@ ID = "C16"
 LEVEL = "exploration"
 RULE = ("one run = one history of <= 40 update operations on one graph "
         "object (type, initial size 0..33 and constructor sampled; growth up "
-        "to 40 vertices; networkx import with arbitrary node order), all "
+        "to 40 vertices; networkx import with arbitrary node order and a "
+        "drawn labelling: ints, floats, gaps, negative, strings, mixed), "
+        "all "
         "views "
         "compared with a set-of-edges model after every operation. "
         "Non-trivial: the history contains at least one successful mutation "
